@@ -183,9 +183,9 @@ for tname in ("T_NULL", "T_PRIVATE", "T_CNAME", "T_A", "T_TXT"):
       what="dns_encode, answer direction, question type %s: header, counts, question echo (id, name, type), one record with pointer owner to offset 12, RDLENGTH equal to the bytes present, exact message length%s" % (
           tname[2:], "; payload copied byte for byte (ghost index)" if tname in ("T_NULL", "T_PRIVATE") else ""))
 for tname in ("T_MX", "T_SRV"):
-    G(name="dnsenc_answer_" + tname, entry="h_encode_list", defs=["H_TYPE=" + tname, "H_KIND=3", "H_LOOP=1"], enforce=["dns_encode"], wip=True, tier="thorough", kind="bounded", bound="list of at most 7 bytes = at most 3 host names (record loop unwound 4 times with unwinding assertion)",
-      props={"C10": "all", "C09": "all", "C05": "safety"}, **dict(DNSENC, unwind=5, timeout=1200, cost=300, mem_gb=24, rss_gb=8),
-      what="dns_encode, answer direction, question type %s, list of at most 3 host names (BOUNDED): header, question echo, ANCOUNT equals the records written, every record (arbitrary ghost position) has pointer owner, echoed type, class IN, preference 10 x position, RDLENGTH equal to the bytes present, lies inside the message; first record follows the question, last record ends the message" % tname[2:])
+    G(name="dnsenc_answer_" + tname, entry="h_encode_list", defs=["H_TYPE=" + tname, "H_KIND=3", "H_LOOP=1", "LIST_CAP=5", "H_CAP=640"], enforce=["dns_encode"], wip=True, kind="bounded", bound="list of at most 5 bytes = at most 2 host names (record loop unwound 3 times with unwinding assertion)",
+      props={"C10": "all", "C09": "all", "C05": "safety"}, **dict(DNSENC, unwind=4, timeout=1500, cost=300, mem_gb=24, rss_gb=8),
+      what="dns_encode, answer direction, question type %s, list of at most 2 host names (BOUNDED): header, question echo, ANCOUNT equals the records written, every record (arbitrary ghost position) has pointer owner, echoed type, class IN, preference 10 x position, RDLENGTH equal to the bytes present, lies inside the message; first record follows the question, last record ends the message" % tname[2:])
 G(name="dnsenc_query", entry="h_encode_query", enforce=["dns_encode"], props={"C10": "all", "C05": "safety", "C06": "safety"}, **DNSENC,
   what="dns_encode, query direction (client send_query and server forward_query): header, one question with the host name / the query's own name, type, class IN, EDNS0 OPT record present exactly when ARCOUNT is 1, exact message length")
 
@@ -194,7 +194,9 @@ G(name="putname", wip=True, harness="h_putname.c", entry="h_putname", style="leg
   what="putname for every name of at most 255 characters (QUERY_NAME_SIZE - 1) and every limit (loop contract, no bound): writes one length byte 1..63 plus the bytes of every strtok token (arbitrary ghost token and byte), contiguously, then the root label; n + 2 bytes exactly unless the name has an empty label (witness position checked); never beyond n + 2 bytes; fails only at a label longer than 63 or with a limit below the length of the name, leaving the cursor unchanged")
 
 # ---- client.c (C06, C09) ------------------------------------------------------------------------------
-CLI = dict(harness="h_client.c", style="legacy", unwind=8, timeout=900)
+CLI = dict(harness="h_client.c", style="legacy", unwind=8, timeout=900, shrink="client.c", shrink_set="client64", cbmc_flags=["--no-array-field-sensitivity"])
+G(name="cli_tunnel_dns", entry="h_tunnel_dns", defs=["STUB_TUNNEL=1"], enforce=["tunnel_dns"], props={"C06": "all", "C01": "all"}, min_obl=30, cost=100, **CLI,
+  what="client tunnel_dns on arbitrary packet state (invariant: fill levels within capacity) and an arbitrary reply: unmatched replies (id not among the three most recent, wrong first letter, no header) change and deliver nothing; duplicate fragments and fragments after a gap are not appended; appended bytes are exactly the reply's bytes behind the 2-byte header at the fill level (ghost index), never beyond the buffer; tun gets only a successfully inflated packet with zlib's bytes and length, on the last-fragment flag; only a matching ack advances the upstream packet by exactly the bytes sent")
 G(name="cli_namedec", entry="h_namedec", enforce=["dns_namedec"], props={"C09": "all", "C06": "safety"}, min_obl=10, cost=30, **CLI,
   what="client dns_namedec for every answer text of 1..1024 characters: letter h/i/j/k (host name) and t/s/u/v (TXT) select Base32/Base64/Base64u/Base128 - the codec the server used for that letter -, exactly the text between letter and suffix is decoded into the caller's buffer, r = raw copy, anything else decodes nothing; result within the output space")
 
